@@ -67,7 +67,7 @@ func init() {
 		ID:    "R14.6",
 		Title: "a tunnelled request always names the verb it stands for",
 		Text:  "In EncodeTunnelledQuery every path to a return has set the method-override header from the verb parameter: the server recognises a tunnelled request by that header alone, so a tunnelled POST without it arrives as a plain POST with a multipart body and an empty query.",
-		Props: []string{"C14", "C02"},
+		Props: []string{"C14", "C02", "C15"},
 		Floor: map[string]int{"v2": 1, "root": 1},
 		Run:   runR146,
 	})
